@@ -114,6 +114,21 @@ impl<'a, F> DataFrameEmitter<'a, F> where F: FnMut(Box<[u8]>) {
         return Ok(());
     }
 
+    // Returns Ok(()) if there is bandwidth left for another datagram
+    // Returns Err(DataPushError::SizeLimited) otherwise, after emitting the frame in progress
+    pub fn check_bandwidth(&mut self) -> Result<(), DataPushError> {
+        let frame_size = self.in_progress_frame.as_ref().map_or(0, |frame| frame.fbuilder.size());
+
+        if (self.flush_alloc - frame_size as isize) < 0 {
+            // Out of bandwidth
+            self.finalize();
+            self.frame_queue.mark_rate_limited();
+            return Err(DataPushError::SizeLimited);
+        }
+
+        return Ok(());
+    }
+
     pub fn finalize(&mut self) {
         if let Some(next_frame) = self.in_progress_frame.take() {
             let frame_bytes = next_frame.fbuilder.build();
